@@ -192,6 +192,22 @@ func (g *VCGen) mergeStates(b *ssa.BasicBlock, preds []*ssa.BasicBlock) *State {
 	}
 	st := &State{heaps: map[string]string{}}
 	names := map[string]bool{}
+	diffEpoch := false
+	for _, p := range preds {
+		if g.exitSt[p].epoch > st.epoch {
+			st.epoch = g.exitSt[p].epoch
+		}
+		if g.exitSt[p].epoch != g.exitSt[preds[0]].epoch {
+			diffEpoch = true
+		}
+	}
+	if diffEpoch {
+		// states from different havoc epochs: every known heap must be merged explicitly
+		st.epoch = g.eng.nextEpoch()
+		for h := range g.so.heaps {
+			names[h] = true
+		}
+	}
 	for _, p := range preds {
 		for h := range g.exitSt[p].heaps {
 			names[h] = true
@@ -535,11 +551,39 @@ func (g *VCGen) loopEnv(li *loopInfo, st *State, subst map[ssa.Value]SpecVal) *S
 	return env
 }
 
+// rangeIndexInv: -1 <= idx < N where the header compares idx+1 < N
+func (g *VCGen) rangeIndexInv(phi *ssa.Phi, term string) string {
+	inv := fmt.Sprintf("(>= %s (- 1))", term)
+	for _, in := range phi.Block().Instrs {
+		if cmp, ok := in.(*ssa.BinOp); ok && cmp.Op == token.LSS {
+			if add, ok := cmp.X.(*ssa.BinOp); ok && add.Op == token.ADD && add.X == ssa.Value(phi) {
+				if n, ok := g.vals[cmp.Y]; ok {
+					inv = fmt.Sprintf("(and %s (< %s %s))", inv, term, n.T)
+				} else if c, ok := cmp.Y.(*ssa.Const); ok {
+					inv = fmt.Sprintf("(and %s (< %s %s))", inv, term, g.constVal(c).T)
+				}
+			}
+		}
+	}
+	return inv
+}
+
 func (g *VCGen) loopName(li *loopInfo) string { return fmt.Sprintf("loop%d", li.index) }
 
 func (g *VCGen) checkInvariants(li *loopInfo, st *State, subst map[ssa.Value]SpecVal, phase string, pos token.Pos) {
 	if li.lc == nil {
 		return
+	}
+	for _, in := range li.header.Instrs {
+		phi, ok := in.(*ssa.Phi)
+		if !ok {
+			break
+		}
+		if phi.Comment == "rangeindex" {
+			if sv, ok := subst[phi]; ok {
+				g.oblige(fmt.Sprintf("%s.rangeindex.%s", g.loopName(li), phase), "invariant", g.rangeIndexInv(phi, sv.T), "range index within -1 .. len-1", pos)
+			}
+		}
 	}
 	save := g.cur
 	g.cur = st
@@ -577,8 +621,15 @@ func (g *VCGen) loopHeader(b *ssa.BasicBlock, li *loopInfo, preds []*ssa.BasicBl
 	pre := st.clone()
 	heaps, allocs, all := g.loopModifiedHeaps(li)
 	if all {
+		// an open-world call inside the loop: every heap, including ones not mentioned yet, is havocked
 		for h := range g.so.heaps {
 			heaps[h] = true
+		}
+		st.epoch = g.eng.nextEpoch()
+		for h := range st.heaps {
+			if !g.immutableHeap(h) && !(strings.HasPrefix(h, "IT!") && !heapsStoredInLoop(g, li)[h]) {
+				delete(st.heaps, h)
+			}
 		}
 	}
 	for h := range heaps {
@@ -603,6 +654,10 @@ func (g *VCGen) loopHeader(b *ssa.BasicBlock, li *loopInfo, preds []*ssa.BasicBl
 		}
 		sv := g.havocVal(phi)
 		g.assumeHere(g.allocFact(sv.T, phi.Type(), st))
+		if phi.Comment == "rangeindex" {
+			// range over a slice/array: the hidden index stays within -1 .. len-1 (built-in invariant, checked at entry and back edges)
+			g.assumeHere(g.rangeIndexInv(phi, sv.T))
+		}
 	}
 	li.hdrState = st.clone()
 	// 3. assume invariants
@@ -796,6 +851,14 @@ func (g *VCGen) alloc(x *ssa.Alloc) {
 	}
 	a := g.objAddr(r, et)
 	g.store(g.cur, a, g.so.zero(et))
+	if st, ok := et.Underlying().(*types.Struct); ok {
+		for i := 0; i < st.NumFields(); i++ {
+			if g.eng.isOutOfLine(et, st, i) {
+				ft := st.Field(i).Type()
+				g.store(g.cur, g.objAddr(fmt.Sprintf("(fld %s %d)", r, i), ft), g.so.zero(ft))
+			}
+		}
+	}
 }
 
 func (g *VCGen) nilCheck(v ssa.Value, term string, pos token.Pos) {
@@ -817,6 +880,19 @@ func (g *VCGen) fieldAddr(x *ssa.FieldAddr) {
 	pt := x.X.Type().Underlying().(*types.Pointer)
 	st := pt.Elem().Underlying().(*types.Struct)
 	var base *Addr
+	if g.eng.isOutOfLine(pt.Elem(), st, x.Field) {
+		// out-of-line field cell: a real pointer value fld(owner, field)
+		owner, ok := g.vals[x.X]
+		if !ok {
+			panic(unsupported("out-of-line field " + st.Field(x.Field).Name() + " of an interior address"))
+		}
+		g.nilCheck(x.X, owner.T, x.Pos())
+		ref := fmt.Sprintf("(fld %s %d)", owner.T, x.Field)
+		ft := st.Field(x.Field).Type()
+		g.vals[x] = SpecVal{ref, "Int", x.Type()}
+		g.addrs[x] = g.objAddr(ref, ft)
+		return
+	}
 	if a, ok := g.addrs[x.X]; ok {
 		base = a
 	} else {
@@ -870,6 +946,27 @@ func (g *VCGen) unop(x *ssa.UnOp) {
 	switch x.Op {
 	case token.MUL: // load
 		a := g.addrOf(x.X)
+		if g.eng.hasOutOfLineFields(a.Elem) {
+			// struct values are self-contained: read the out-of-line cells into the copy
+			if a.Kind != "obj" || len(a.Path) != 0 {
+				panic(unsupported("copy of a nested struct with out-of-line fields: " + a.Elem.String()))
+			}
+			st := a.Elem.Underlying().(*types.Struct)
+			sn := g.so.sortOf(a.Elem)
+			cell := g.loadCell(g.cur, a)
+			var parts []string
+			for i := 0; i < st.NumFields(); i++ {
+				if g.eng.isOutOfLine(a.Elem, st, i) {
+					ft := st.Field(i).Type()
+					parts = append(parts, g.load(g.cur, g.objAddr(fmt.Sprintf("(fld %s %d)", a.Ref, i), ft)))
+				} else {
+					parts = append(parts, fmt.Sprintf("(%s %s)", g.so.fieldSel(sn, st.Field(i).Name(), i), cell))
+				}
+			}
+			sv := g.define(x, "(mk!"+sn+" "+strings.Join(parts, " ")+")")
+			g.assumeHere(g.allocFact(sv.T, x.Type(), g.cur))
+			return
+		}
 		if a.Kind == "obj" && len(a.Path) == 0 {
 			if _, isAddr := g.addrs[x.X]; !isAddr {
 				g.nilCheck(x.X, a.Ref, x.Pos())
@@ -1046,7 +1143,32 @@ func (g *VCGen) eqTerm(l, r SpecVal, t types.Type) string {
 
 func (g *VCGen) storeInstr(x *ssa.Store) {
 	a := g.addrOf(x.Addr)
-	v := g.val(x.Val)
+	if g.eng.hasOutOfLineFields(a.Elem) {
+		if a.Kind != "obj" || len(a.Path) != 0 || a.Imm {
+			panic(unsupported("copy of a nested struct with out-of-line fields: " + a.Elem.String()))
+		}
+		sv := g.val(x.Val)
+		st := a.Elem.Underlying().(*types.Struct)
+		sn := g.so.sortOf(a.Elem)
+		g.store(g.cur, a, sv.T)
+		for i := 0; i < st.NumFields(); i++ {
+			if g.eng.isOutOfLine(a.Elem, st, i) {
+				ft := st.Field(i).Type()
+				g.store(g.cur, g.objAddr(fmt.Sprintf("(fld %s %d)", a.Ref, i), ft), fmt.Sprintf("(%s %s)", g.so.fieldSel(sn, st.Field(i).Name(), i), sv.T))
+			}
+		}
+		return
+	}
+	var v SpecVal
+	if _, isAddr := g.addrs[x.Val]; isAddr {
+		if sv, ok := g.vals[x.Val]; ok {
+			v = sv
+		} else {
+			v = g.escapeAddr(x.Val)
+		}
+	} else {
+		v = g.val(x.Val)
+	}
 	if a.Imm {
 		// store into an immutable object: only allowed while it is fresh (constructor pattern) or in an initializer method
 		root := rootPointer(x.Addr)
@@ -1151,6 +1273,11 @@ func (g *VCGen) makeInterface(x *ssa.MakeInterface) {
 	v := g.val(x.X)
 	tag := g.so.typeTag(x.X.Type())
 	if v.Sort == "Int" && !isIntType(x.X.Type()) {
+		if n, ok := x.Type().(*types.Named); ok && n.Obj().Pkg() != nil && g.eng.contracts.ClosedIfaces[n.Obj().Pkg().Path()+"."+n.Obj().Name()] {
+			if _, isAlloc := x.X.(*ssa.Alloc); !isAlloc {
+				g.oblige("closediface.nonnil@"+x.Name(), "invariant", fmt.Sprintf("(not (= %s 0))", v.T), "values converted to a closed interface are non-nil pointers", x.Pos())
+			}
+		}
 		g.define(x, fmt.Sprintf("(mkIface %s %s)", tag, v.T))
 		return
 	}
@@ -1290,6 +1417,27 @@ func (g *VCGen) checkExit(results []SpecVal, pos token.Pos, tag string) {
 	if g.fc.PanicsIff != nil {
 		g.oblige("panics.onlyif@"+tag, "panics", not(g.panicAllowed), "returns normally only when the panic condition is false: "+g.fc.PanicsIff.Text, pos)
 	}
+	if g.fc.HasPreserves {
+		// open-world function: only the listed locations are promised to be kept
+		env0 := g.ownEnv(g.entry)
+		for k, l := range g.modLocs(env0, g.fc.Preserves) {
+			a, b := g.heapTerm(g.entry, l.heap), g.heapTerm(g.cur, l.heap)
+			var f string
+			switch l.kind {
+			case "heap", "global":
+				f = fmt.Sprintf("(= %s %s)", b, a)
+			case "obj":
+				f = fmt.Sprintf("(= (select %s %s) (select %s %s))", b, l.ref, a, l.ref)
+			case "field":
+				sel := g.so.fieldSel(l.sort, l.st.Field(l.field).Name(), l.field)
+				f = fmt.Sprintf("(= (%s (select %s %s)) (%s (select %s %s)))", sel, b, l.ref, sel, a, l.ref)
+			default:
+				continue
+			}
+			g.oblige(fmt.Sprintf("preserves.%d@%s", k, tag), "frame", f, "preserved location "+g.fc.Preserves[min(k, len(g.fc.Preserves)-1)].Text, pos)
+		}
+		return
+	}
 	if f := g.frameSoFar(g.cur); f != "true" {
 		g.oblige("frame@"+tag, "frame", f, "modifies clause respected", pos)
 	}
@@ -1383,4 +1531,19 @@ func panicKind(p *ssa.Panic) string {
 		}
 	}
 	return "other"
+}
+
+// heaps written directly (not through open-world calls) in a loop
+func heapsStoredInLoop(g *VCGen, li *loopInfo) map[string]bool {
+	out := map[string]bool{}
+	for b := range li.blocks {
+		for _, in := range b.Instrs {
+			if nx, ok := in.(*ssa.Next); ok {
+				if k := g.iterKeyStatic(nx.Iter); k != "" {
+					out[k] = true
+				}
+			}
+		}
+	}
+	return out
 }
